@@ -115,7 +115,9 @@ impl PartitionConfirmationState {
                 });
 
         // Update the event's confirmation status
-        event.confirmation_count = confirmation_count;
+        // Confirmations only accumulate: a late or duplicated report with a lower count must
+        // not take back a quorum that was already observed
+        event.confirmation_count = event.confirmation_count.max(confirmation_count);
         event.last_attempt = now;
         event.attempts += 1;
 
